@@ -29,6 +29,7 @@ META = {
 ZCONFIGS = [(zc, rel) for zc in ("versioned", "btree") for rel in (True, False)]
 ALL_OPS = ["open", "openid", "openserial", "openboth", "close", "begin", "stage", "commit", "rollback", "setmax", "setpolicy",
            "mutate", "zmutate"]
+SCRIBBLE = ["scribble"]
 
 GEN_CFG = """INIT GInit
 NEXT GNext
@@ -48,6 +49,7 @@ CONSTANTS
   CloseHows = {closehows}
   EndHows = {endhows}
   IdOffsets <- {idoffsets}
+  Forms = {forms}
 CHECK_DEADLOCK FALSE
 """
 EDGE = "VIEW vars\nACTION_CONSTRAINT EmitEdge"
@@ -62,7 +64,7 @@ def gen_cfg(ctx, name, **kw):
     d = dict(mode=EDGE, contents="GenContentsSmall", rids=tset([1, 2]), maxargs=tset([0, 1, 2]),
              policies=tset(["oddid", "oldserial", "none"]), idargs=tset([1, 2, 3, 4, 9]), serialargs=tset([1, 2, 7]),
              depth=7, ops=tset(ALL_OPS), initkinds=tset(["fresh"]), initcontents="GenInitOne", maxcommits=3,
-             closehows=tset(["rollback"]), endhows=tset(["commit", "rollback"]), idoffsets="GenNoOffsets")
+             closehows=tset(["rollback"]), endhows=tset(["commit", "rollback"]), idoffsets="GenNoOffsets", forms=tset(["rdata"]))
     d.update(kw)
     return ctx.cfg(name, GEN_CFG.format(**d))
 
@@ -150,12 +152,26 @@ def run(ctx):
         # E2: every transition from a LOADED zone, more contents and handles, no refused-call noise
         scripts += ctx.generate("Gen_VersionedZone", gen_cfg(
             ctx, "e2.cfg", initkinds=tset(["loaded"]), initcontents="GenInitTwo" if not quick else "GenInitOne",
-            contents="GenContentsSmall" if quick else "GenContents", rids=tset([1, 2, 3]),
+            contents="GenContentsSmall" if quick else "GenContentsMid", rids=tset([1, 2, 3]),
             maxargs=tset([1, 2] if quick else [1, 2, 3]), policies=tset(["oddid", "oldserial"]),
             idargs=tset([2, 3, 4] if quick else [2, 3, 4, 5]), serialargs=tset([1, 2] if quick else [1, 2, 3]),
-            ops=tset([o for o in ALL_OPS if o not in ("openboth", "mutate", "zmutate")]),
+            ops=tset([o for o in ALL_OPS if o not in ("openboth", "mutate", "zmutate")] + SCRIBBLE),
+            forms=tset(["rdataset"] if quick else ["rdataset", "rrset"]),
             depth=5 if quick else 7, maxcommits=4 if quick else 5,
             closehows=tset(["commit", "exit"]), endhows=tset(["exit", "raise"])))
+        nany = len(scripts)
+        # E3 (B-tree zones only): every transition of a model whose contents add / remove an NS
+        # delegation ABOVE a name that exists already and is not written by that transaction
+        # (the zone re-flags such nodes as glue / not glue), with mutation attempts on every
+        # reachable node and the caller re-using the Rdataset objects it handed in
+        scripts += ctx.generate("Gen_VersionedZone", gen_cfg(
+            ctx, "e3.cfg", initkinds=tset(["loaded"]), initcontents="GenInitDeleg", contents="GenContentsDeleg",
+            rids=tset([1, 2]), maxargs=tset([2]), policies="{}", idargs=tset([2, 3]), serialargs="{}",
+            ops=tset(["open", "openid", "close", "begin", "stage", "commit", "setmax", "mutate"] + SCRIBBLE),
+            forms=tset(["rdata", "rdataset"]), depth=5 if quick else 7, maxcommits=3 if quick else 4,
+            closehows=tset(["exit"]), endhows=tset(["commit"])))
+        btree_only = scripts[nany:]
+        scripts = scripts[:nany]
         # S1: long random histories from loaded zones, every call
         n = 0 if fast else 600 if quick else 12000
         d = 20 if quick else 40
@@ -172,12 +188,18 @@ def run(ctx):
                 ctx, "s2.cfg", initkinds=tset(["fresh"]), ops=tset([o for o in ALL_OPS if o not in ("mutate", "zmutate")]), **simkw),
                 simulate="num=%d" % (n // 2), depth=d + 2, seed=ctx.seed + 2, deadlock=False)
         scripts = [json.loads(x) for x in dict.fromkeys(json.dumps(s, sort_keys=True) for s in scripts)]
+        btree_only = [json.loads(x) for x in dict.fromkeys(json.dumps(s, sort_keys=True) for s in btree_only)]
         jobs = []
         for i, s in enumerate(scripts):
             # quick: one of the four zone configurations per script (rotating); thorough: two
             cfgs = [ZCONFIGS[i % 4]] if quick else [ZCONFIGS[i % 4], ZCONFIGS[(i // 4 + i + 1) % 4]]
             for zc, rel in dict.fromkeys(cfgs):
                 jobs.append((s, zc, rel, "s%d.%s.%s" % (i, zc, "rel" if rel else "abs")))
+        BT = [c for c in ZCONFIGS if c[0] == "btree"]
+        for i, s in enumerate(btree_only):
+            for zc, rel in ([BT[i % 2]] if quick else BT):
+                jobs.append((s, zc, rel, "d%d.%s.%s" % (i, zc, "rel" if rel else "abs")))
+        scripts = scripts + btree_only
         # R: seeded random walks weighted towards many live versions and readers
         nr = 240 if fast else 1200 if quick else 20000
         for i in range(nr):
@@ -187,7 +209,10 @@ def run(ctx):
             jobs.append(("random", ctx.seed * 1000003 + i, steps, fresh, zc, rel, "r%d.%s.%s" % (i, zc, "rel" if rel else "abs")))
         jobmap = {j[-1]: j for j in jobs}
         for zc, rel in ZCONFIGS:
-            for fresh, which in ((False, "latest"), (False, "older"), (True, "latest")):
+            # snapshots: the version that put a delegation above existing names (v1), the one that
+            # removed it again (latest), the first load (v0, B-tree only), and a new zone
+            snaps = ((False, "latest"), (False, "v1"), (True, "latest")) + (((False, "v0"),) if zc == "btree" else ())
+            for fresh, which in snaps:
                 probe_jobs.append(("probe", zc, rel, fresh, which, "p.%s.%s.%s.%s" % (zc, "rel" if rel else "abs",
                                                                                      "fresh" if fresh else "loaded", which)))
         ctx.extra["scripts"] = len(scripts)
